@@ -12,8 +12,8 @@ e) the Query command that REPLAY is converted to requests ORDER BY event_id asce
 Noted, not armed: zone_merger::HeapItem::cmp compares context_id only, so equal contexts from different input segments are interleaved during compaction (reproduced: rows come back 1,5,2,6,…); since REPLAY orders by event id this no longer affects C04, and QUERY promises no order without ORDER BY.
 Not decided: that a requested order equals append order for every history (value level); routing stability is C12.a.
 """
-FLOOR = 5
-REQUIRED = ["C04.a", "C04.b", "C04.c", "C04.e", "C04.f"]
+FLOOR = 6
+REQUIRED = ["C04.a", "C04.b", "C04.c", "C04.e", "C04.f", "C04.g"]
 
 ORDER_OPS = re.compile(r"(slice::(sort\w*|reverse|swap|rotate_\w+|select_nth\w*)|Vec::(swap_remove|insert|dedup\w*)|VecDeque::(push_front|swap_remove\w*)|rayon::.*par_\w+|ParallelIterator\w*|BinaryHeap::\w+)$")
 
@@ -209,3 +209,22 @@ def run(ctx):
         ctx.note("zone_merger::HeapItem::cmp reads fields %s (no tie-break after context_id => unstable merge of equal contexts; not armed)" % sorted(reads))
     except AnchorMissing:
         pass
+
+    def g_(inst):
+        # passive buffers are read oldest-first: the set's vector keeps insertion order
+        bad, n = [], 0
+        REORDER = re.compile(r"Vec::(swap_remove|insert|dedup\w*)$|slice::(swap|sort\w*|reverse|rotate_\w+|select_nth\w*)$|VecDeque::(push_front|swap_remove_\w+|rotate_\w+)$|Iterator::rev$|par_")
+        for k in F.keys():
+            if k.startswith("bin:") or "_test" in k or "::tests::" in k or "memory::passive_buffer_set::PassiveBufferSet::" not in k:
+                continue
+            b = F.fn_exact(k)
+            n += 1
+            for c_ in b.calls:
+                if not c_.cleanup and REORDER.search(c_.nname):
+                    short = k.split("PassiveBufferSet::")[-1].split("::{closure")[0]
+                    bad.append(("passive-order:%s:%s" % (short, c_.nname.split("::")[-1]), "PassiveBufferSet::%s changes the order of the passive buffers with %s: readers take the buffers in vector order as oldest-first, so a context that spans several passive buffers is replayed out of append order" % (short, c_.nname), sp(b, c_.bb)))
+        inst.sites.append("PassiveBufferSet bodies: %d" % n)
+        if n < 4:
+            raise AnchorMissing("PassiveBufferSet bodies (found %d)" % n)
+        return bad
+    ctx.run("C04.g", "K4 EFFECT", "PassiveBufferSet::*", "the passive buffers stay in rotation order (oldest first)", g_)
